@@ -744,6 +744,8 @@ fn part2(ctx: &Ctx, report: &Report, tier: Tier, full: bool) {
     report.set("pairs_in_product", json!(n_rules as u64 * n_msgs as u64));
     let max_miss: u32 = if full { u32::MAX } else { 2 };
     let sampled = Mutex::new(0usize);
+    // key-interaction violations are collected and reported in (rule, message) order
+    let found: Mutex<Vec<(usize, usize, Violation)>> = Mutex::new(vec![]);
     let _ = tier;
     par_for(n_rules, 4, |ri| {
         let mut idx = vec![];
@@ -792,9 +794,9 @@ fn part2(ctx: &Ctx, report: &Report, tier: Tier, full: bool) {
                 } else {
                     1
                 }] += 1;
-                if exp == 1 || miss == 1 {
+                if (exp == 1 || miss == 1) && (ri + mi) % 977 == 0 {
                     let mut g = sampled.lock().unwrap();
-                    if *g < 12 && (ri + mi) % 977 == 0 {
+                    if *g < 12 {
                         *g += 1;
                         report.sample(json!({"rule": refmatch::print(&rr), "msg": ctx.descs[mi].to_json(),
                             "reference": expected_text(ctx, &idx, mi), "zbus": zname(z)}));
@@ -809,12 +811,15 @@ fn part2(ctx: &Ctx, report: &Report, tier: Tier, full: bool) {
                 continue;
             }
             oc[4] += 1;
+            if found.lock().unwrap().len() >= 20_000 {
+                continue; // counted; enough witnesses kept
+            }
             let min = minimise(ctx, &idx, mi);
             let mr = rule_of(ctx, &min);
             let keys: Vec<String> = mr.keys().iter().map(|k| k.family().to_string()).collect();
             let zmin = build_rule(&mr).map(|r| zeval(&r, &ctx.msgs[mi])).unwrap_or(2);
             let (emin, zandmin) = conj(ctx, &min, mi);
-            report.violation(
+            found.lock().unwrap().push((ri, mi,
                 Violation::new(
                     "matches-iff-specification",
                     format!(
@@ -832,7 +837,7 @@ fn part2(ctx: &Ctx, report: &Report, tier: Tier, full: bool) {
                 .feat("keys", keys.join("+"))
                 .feat("expected", if emin == 1 { "match" } else { "no-match" })
                 .feat("observed", zname(zmin)),
-            );
+            ));
         }
         report.eval(n_eval);
         report.add("pairs_skipped_more_than_2_keys_from_a_match", n_skip);
@@ -852,6 +857,11 @@ fn part2(ctx: &Ctx, report: &Report, tier: Tier, full: bool) {
             }
         }
     });
+    let mut found = found.into_inner().unwrap();
+    found.sort_by_key(|(r, m, _)| (*r, *m));
+    for (_, _, v) in found {
+        report.violation(v);
+    }
     // the empty rule matches everything
     let empty = build_rule(&RRule::default()).unwrap_or_else(|e| machinery_failure(&e));
     for (mi, m) in ctx.msgs.iter().enumerate() {
@@ -874,7 +884,9 @@ fn part2(ctx: &Ctx, report: &Report, tier: Tier, full: bool) {
 // ---------------------------------------------------------------------------------------------
 // audit of refmatch against the reference bus daemon
 
-fn audit(report: &Report) -> J {
+/// `sabotage`: self-test of the audit — the reference is deliberately given zbus's reading of
+/// path_namespace (plain string prefix); the audit must then stop with a machinery failure.
+fn audit(report: &Report, sabotage: bool) -> J {
     use refmatch::audit::{Bus, Pair};
     let lib = match refmatch::ffi::Lib::load() {
         Ok(l) => l,
@@ -1021,11 +1033,18 @@ fn audit(report: &Report) -> J {
         };
         for (m, delivered) in msgs.iter().zip(got) {
             n += 1;
-            let want = match refmatch::matches(&r, m, &owners) {
+            let mut want = match refmatch::matches(&r, m, &owners) {
                 V3::Yes => true,
                 V3::No => false,
                 V3::Unresolved => machinery_failure("C21 audit: unresolved name with a full owner table"),
             };
+            if sabotage {
+                if let (Some(ns), Some(p)) = (&r.path_namespace, &m.path) {
+                    let mut r2 = r.clone();
+                    r2.path_namespace = None;
+                    want = p.starts_with(ns.as_str()) && refmatch::matches(&r2, m, &owners) == V3::Yes;
+                }
+            }
             if want {
                 n_match += 1;
             }
@@ -1097,8 +1116,12 @@ pub fn main(args: &Args) -> i32 {
     }
     let report = Report::new("C21", args.tier, args.seed, "exploration");
     let audit_only = args.extra.iter().any(|a| a == "--audit-only");
-    if args.tier == Tier::Thorough || audit_only || args.extra.iter().any(|a| a == "--audit") {
-        let summary = audit(&report);
+    let selftest = args.extra.iter().any(|a| a == "--audit-selftest");
+    if args.tier == Tier::Thorough || audit_only || selftest || args.extra.iter().any(|a| a == "--audit") {
+        let summary = audit(&report, selftest);
+        if selftest {
+            vcommon::machinery_failure("C21 --audit-selftest: the sabotaged reference model was NOT noticed by the dbus-daemon audit");
+        }
         if audit_only {
             println!("C21 audit passed: {summary}");
             return 0;
